@@ -60,7 +60,8 @@ Clause(ev) ==
       ELSE IF ~Guard(ev) THEN "MACHINERY.operation_not_enabled_in_the_model"
       ELSE IF \E a \in (live \cap EL) \ Named(ev) : O[a] # v[a] \/ a \notin ObsLive(ev.st) THEN "C16." \o ev.op \o ".disturbs_other_array"
       ELSE IF \E t \in 1..Len(ev.args) : ev.args[t].bins # v[ev.args[t].slot] THEN "C16." \o ev.op \o ".argument_altered_by_the_call"
-      ELSE IF ObsLive(ev.st) # EL \/ \E a \in Named(ev) \cap EL : O[a] # E[a] THEN
+      ELSE IF ObsLive(ev.st) # EL \/ \E a \in Named(ev) \cap EL : O[a] # E[a]
+              \/ (ev.op = "sort" /\ ~IsSortOf(O[ev.a], v[ev.a])) THEN       \* a sort that leaves an unsorted array as it was is not a sort either
               (IF ev.op = "sort" THEN "C16.sort.not_a_joint_permutation_into_non_decreasing_sums" ELSE "C16." \o ev.op \o ".effect_differs_from_documentation")
       ELSE IF \E a \in EL : \E i \in 1..Len(O[a]) : ~BinConsistent(O[a][i], keep) THEN "C16." \o ev.op \o ".sums_inconsistent_with_contents"
       ELSE ""
